@@ -368,10 +368,33 @@ def report(ctx, events, rejects, nontrivial=None, key=None, rule="", exhaustive=
     return 1 if violations else 0
 
 
-def trim(ev, maxlen=600):
-    s = json.dumps(ev, separators=(",", ":"))
+def _hexify(v, depth=0):
+    """compact, readable rendering of an event for the evidence samples: byte arrays as hex, heavy fields dropped"""
+    if isinstance(v, list):
+        if v and all(isinstance(x, int) and not isinstance(x, bool) and -2 <= x <= 255 for x in v):
+            h = "".join("%02x" % (x & 0xff) for x in v)
+            return "h'" + (h if len(h) <= 96 else h[:96] + "...(%d bytes)" % len(v)) + "'"
+        out = [_hexify(x, depth + 1) for x in v[:8]]
+        if len(v) > 8:
+            out.append("... %d more" % (len(v) - 8))
+        return out
+    if isinstance(v, dict):
+        out = {}
+        for k, x in v.items():
+            if k in ("post", "fresh", "hdrpost", "calls", "tlc_runs") and depth > 0:
+                if k == "calls":
+                    out[k] = ["%s.%s" % (c.get("who"), c.get("call")) for c in x][:8]
+                continue
+            out[k] = _hexify(x, depth + 1)
+        return out
+    return v
+
+
+def trim(ev, maxlen=2500):
+    r = _hexify(ev)
+    s = json.dumps(r, separators=(",", ":"))
     if len(s) <= maxlen:
-        return ev
+        return r
     return {"truncated": s[:maxlen] + "..."}
 
 
